@@ -4,6 +4,7 @@ From ChiaV.Clvm Require Import Sexp Ints.
 From ChiaV.Gen Require Import Opcodes Ladders.
 From ChiaV.Cond Require Import Model Spec Facts SigFacts.
 Open Scope N_scope.
+From ChiaV.Cond Require Import Invariants Syntax Collect Summary.
 From ChiaV.Props Require Import C05.
 Check C05_suffix_table :
   forall K s,
@@ -51,3 +52,10 @@ Check C05_signed_text_injective :
   (length attr = length attr' -> msg ++ attr ++ k = msg ++ attr' ++ k -> attr = attr') /\
   (msg ++ attr ++ k = msg ++ attr ++ k' -> k = k').
 Print Assumptions C05_signed_text_injective.
+Check C05_pairs_exactly_the_prescribed_ones :
+  forall vk H K fl V t max_cost clvm_cost b spends pairs,
+  parse_spends vk H K fl V t max_cost clvm_cost = Ok (b, spends, pairs) ->
+  exists ps, tree_syntax fl t = Ok ps /\
+    pairs = (if f_dont_validate fl then []
+             else flat_map (fun p => flat_map (c_pair K (spend0 H p)) (kn p)) ps).
+Print Assumptions C05_pairs_exactly_the_prescribed_ones.
